@@ -4,6 +4,7 @@ C19 line-protocol driver (see harness/internal/c19/c19.go for the grammar).
   enf <strict> <policies> <sites> <reqs>   answer: strict=<0|1> r r …  r = in:<k> | in:* | 421
 -/
 import CaddyModel.C19.Model
+import CaddyModel.C19.ClientAuth
 
 namespace CaddyModel.C19
 
@@ -23,12 +24,27 @@ def noBraces (b : Bytes) : Bool := b.all (fun c => c != 123 && c != 125)
 def hexField (s : String) : Option Bytes :=
   if s == "" then none else (Hex.decode s).bind decodeSyms
 
-/-- a client-auth shape letter: `some true` = an active shape (mode / CA / trusted leaf / verifier
-    modules, alone or combined), `some false` = the empty block `i` -/
-def authShape (c : Char) : Option Bool :=
-  if "cCgkKaflvVw".toList.contains c then some true
-  else if c == 'i' then some false
-  else none
+/-- the `client_authentication` block a shape letter of the `pol` / `enf` cases stands for
+    (harness `clientAuthJSON`) -/
+def shapeConf (c : Char) : Option CAConf :=
+  let z : CAConf := ⟨false, .none, .none, .none, false, .empty⟩
+  match c with
+  | 'c' => some { z with mode := .request }
+  | 'C' => some { z with mode := .require }
+  | 'g' => some { z with mode := .verifyIfGiven }
+  | 'k' => some { z with trustedCACerts := .good }
+  | 'K' => some { z with trustedCACerts := .good, mode := .requireAndVerify }
+  | 'a' => some { z with caRaw := true }
+  | 'f' => some { z with pemFiles := .good }
+  | 'l' => some { z with trustedLeaf := .good }
+  | 'v' => some { z with verifiersRaw := true }
+  | 'V' => some { z with verifiersRaw := true }
+  | 'w' => some { z with verifiersRaw := true, mode := .request }
+  | 'i' => some z
+  | _ => none
+
+/-- what `hasTLSClientAuth` sees for a shape letter: `Active()` of its block before provisioning -/
+def authShape (c : Char) : Option Bool := (shapeConf c).map fun conf => activeBefore (some conf)
 
 /-- flags → (drop, clientAuth) -/
 def parseFlags (s : String) : Option (Bool × Bool) :=
@@ -146,7 +162,62 @@ def e2eSniOk (s : Bytes) : Bool :=
   !s.isEmpty && s.getLast? != some 46 && !s.contains 37 &&
     s.any fun c => (103 ≤ c && c ≤ 122) || (71 ≤ c && c ≤ 90)
 
+def parseListed : Char → Option Listed
+  | '0' => some .none
+  | '1' => some .good
+  | '2' => some .bad
+  | _ => none
+
+def parseBit : Char → Option Bool
+  | '0' => some false
+  | '1' => some true
+  | _ => none
+
+def parseMode : Char → Option Mode
+  | '0' => some .empty
+  | '1' => some .request
+  | '2' => some .require
+  | '3' => some .verifyIfGiven
+  | '4' => some .requireAndVerify
+  | '5' => some .other
+  | _ => none
+
+/-- the 7-digit field description of a `ca` case; `some none` = no block -/
+def parseCA (s : String) : Option (Option CAConf) :=
+  match s.toList with
+  | ['0', '0', '0', '0', '0', '0', '0'] => some none
+  | ['1', a, b, c, d, e, m] => do
+    let ca ← parseBit a
+    let tca ← parseListed b
+    let pem ← parseListed c
+    let leaf ← parseListed d
+    let ver ← parseBit e
+    let mode ← parseMode m
+    pure (some ⟨ca, tca, pem, leaf, ver, mode⟩)
+  | _ => none
+
+def bit (b : Bool) : String := if b then "1" else "0"
+
+def authNum : AuthType → String
+  | .noClientCert => "0"
+  | .requestClientCert => "1"
+  | .requireAnyClientCert => "2"
+  | .verifyClientCertIfGiven => "3"
+  | .requireAndVerifyClientCert => "4"
+
 def handle : List String → String
+  | ["ca", fields] =>
+    match parseCA fields with
+    | none => "bad-op"
+    | some conf =>
+      match provisionPolicyCA conf with
+      | none => "err"
+      | some b =>
+        -- the server of a `ca` case: [this policy, a catch-all without client auth], strict_sni_host unset
+        let ps : List Policy := [⟨[], false, activeBefore conf⟩, ⟨[], false, false⟩]
+        "before=" ++ bit (activeBefore conf) ++ " auth=" ++ authNum b.bits.auth ++ " cas=" ++ bit b.bits.clientCAs ++
+        " vpc=" ++ bit b.bits.verifyPeer ++ " tix=" ++ bit b.ticketsOff ++ " ver=" ++ bit b.hasVerifier ++
+        " after=" ++ bit b.activeAfter ++ " strict=" ++ bit (effectiveStrict none ps)
   | ["e2e", srv, hs, sni, host] =>
     match hexField sni, hexField host with
     | some s, some h =>
